@@ -272,6 +272,10 @@ func c04SweepShapes() []c04Shape {
 	key2 := []c04Param{{name: "k1"}, d("k2", "102", "i:102")}
 	aux := []c04Param{d("x1", "55", "i:55"), {name: "x2"}}
 	dep := func(sh c04Shape) c04Shape { sh.aux = c04AuxParams(sh, 1); return sh }
+	// &aux initial forms that are a variable or a call without arguments (listed deviation c04AuxSig)
+	auxVar := []c04Param{d("x1", "a1", c04Sym("a1"))}
+	auxCall := []c04Param{d("x1", "(list)", "("+c04Sym("list")+")")}
+	auxBoth := []c04Param{d("x1", "b1", c04Sym("b1")), d("x2", "(list)", "("+c04Sym("list")+")")}
 	body := func(sh c04Shape) c04Shape { sh.restMarker = "&body"; return sh }
 	return []c04Shape{
 		// &body is the same marker as &rest, in every section it can follow
@@ -281,6 +285,7 @@ func c04SweepShapes() []c04Shape {
 		// &aux initial forms that use the parameters before them
 		dep(c04Shape{}), dep(c04Shape{req: req2}), dep(c04Shape{opt: opt2}), dep(c04Shape{rest: "r"}), dep(c04Shape{keys: key2}),
 		dep(c04Shape{req: req1, opt: opt1d, rest: "r", keys: key2}),
+		{req: req1, aux: auxVar}, {aux: auxCall}, {req: req1, opt: opt1d, aux: auxBoth},
 		{},
 		{req: req1}, {req: req2}, {req: []string{"a1", "a2", "a3"}},
 		{opt: opt1}, {opt: opt1d}, {opt: opt2},
@@ -884,6 +889,19 @@ func c04SplitOutcome(sh c04Shape, reply string, restPart []c04Arg) string {
 	return strings.Join(out, " ")
 }
 
+// c04AuxQuirk: an &aux initial form of the shape is a variable or a call without arguments: the
+// forms slip binds unevaluated (known finding c04AuxSig; only sweep shapes have them)
+func c04AuxQuirk(sh c04Shape) bool {
+	for _, p := range sh.aux {
+		if p.defLisp == "(list)" || strings.HasPrefix(p.defWire, "y:") {
+			return true
+		}
+	}
+	return false
+}
+
+const c04AuxSig = "lambda shape=aux aspect=aux-init-form-not-evaluated"
+
 // c04AuxDepends: an &aux initial form of the shape refers to other parameters
 func c04AuxDepends(sh c04Shape) bool {
 	for _, p := range sh.aux {
@@ -1030,7 +1048,7 @@ func c04Lambda(c *lib.Ctx) {
 		if inListed {
 			ref = split
 		}
-		if !c04SameVerdict(machine, ref) {
+		if !c04SameVerdict(machine, ref) && !c04AuxQuirk(cs.sh) {
 			c.Report(fmt.Sprintf("lambda shape=%s aspect=machine-vs-model", cs.sh.class()), false, map[string]any{
 				"part": "lambda", "sweep": false, "input": "ll impl " + cs.sh.llLisp() + " / " + c04ArgsLisp(cs.args), "context": "model-only",
 				"ll": cs.sh.llLisp(), "args": c04ArgsLisp(cs.args), "request": reqs[n+i],
@@ -1103,6 +1121,9 @@ func c04Lambda(c *lib.Ctx) {
 				sig := fmt.Sprintf("lambda shape=%s aspect=%s", cs.sh.class(), aspect)
 				if listedJ && c04Judge(cs.sh, ctx, devJ, impl) == "" {
 					sig = c04SplitSig // exactly the listed deviation, nothing else
+				}
+				if cs.sweep && c04AuxQuirk(cs.sh) && c04Judge(cs.sh, ctx, machj, impl) == "" {
+					sig = c04AuxSig // exactly what the code says: the initial form bound as it is written
 				}
 				sent := cs.request()
 				if j > 0 {
@@ -1238,6 +1259,15 @@ func runC04(c *lib.Ctx) {
 			c04ReplayHistory(c, rec)
 		case "builtin-static":
 			c04ReplayStatic(c, rec)
+		case "builtin-keytail":
+			c04ReplayKeyTail(c, rec)
+		case "malformed":
+			form, _ := rec["input"].(string)
+			o := lib.EvalString(slip.NewScope(), form)
+			fmt.Printf("replay %s\n  observed (implementation): %s %s\n  expected: a condition (malformed lambda-list element)\n", form, c04Outcome(o), o.Msg)
+			if o.Ok {
+				c.Report("replay", false, map[string]any{"input": form})
+			}
 		default:
 			fmt.Println("replay file has no usable case (kind:", rec["kind"], ")")
 		}
@@ -1247,6 +1277,7 @@ func runC04(c *lib.Ctx) {
 	phases := map[string]float64{}
 	lap := func(name string) { phases[name] = float64(int(time.Since(t0).Seconds()*10)) / 10; t0 = time.Now() }
 	c04Lambda(c)
+	c04Malformed(c)
 	lap("lambda")
 	c04Histories(c)
 	lap("histories")
